@@ -55,7 +55,8 @@ def tols(c):
         return (ETOL64, TOL64)
     sizes = [int(np.ceil(x * (c['Q'] if isinstance(c.get('Q'), (int, float)) else 2))) for x in c.get('shape', [1])] \
         + list(c.get('samples', []))
-    return (ETOL32, H1.tol32(max(sizes)))          # single precision: array tolerance grows with the axis length
+    # single precision: array tolerance grows with the axis length and with the largest chirp phase (see harness/c01.py)
+    return (ETOL32, max(H1.tol32(max(sizes)), 8 * 1.2e-7 * H1.phase_max(c)))
 
 
 arr2w, w2arr, close = H1.arr2w, H1.w2arr, H1.close
